@@ -4,6 +4,12 @@ use vf_dfir_gen::{family, libcheck, print};
 fn main() {
     let fam = family::family();
     let arg = std::env::args().nth(1);
+    if arg.as_deref() == Some("excluded") {
+        for (name, prog) in family::excluded_rustc() {
+            println!("// EXCLUDED (rustc E0282) {name}\n{}// lib: {:?}\n", print::dfir_source(&prog), libcheck::lib_compile(&prog));
+        }
+        return;
+    }
     if let Some(a) = &arg {
         for ps in &fam {
             if a.parse::<usize>().ok() == Some(ps.id) || &ps.name == a {
